@@ -286,10 +286,20 @@ def call(f, x, y, args):
         return "exc", "%s: %s" % (type(e).__name__, e)
 
 
+def canonical(name):
+    """Violations are keyed by the first public name bound to the same kernel (aliases share findings)."""
+    f = D.named_distances[name]
+    for n, g in D.named_distances.items():
+        if g is f:
+            return n
+    return name
+
+
 def check_pair(rep, name, kind, x, y, kw):
     res = rep.res
     s = R.SPEC[name]
     f = D.named_distances[name]
+    cname = canonical(name)
     args = [kw[k] for k in s["argorder"]]
     case = {"metric": name, "gen": kind, "dtype": str(x.dtype), "x": x.tolist(), "y": y.tolist(),
             "kwds": R.kwds_to_json(kw)}
@@ -304,20 +314,20 @@ def check_pair(rep, name, kind, x, y, kw):
     for tag, (a, b) in (("xy", (x, y)), ("yx", (y, x)), ("xx", (x, x.copy())), ("yy", (y, y.copy()))):
         vals[tag] = call(f, a, b, args)
     if not (np.array_equal(x, x0) and np.array_equal(y, y0)):
-        rep.violation("metric:%s:exception" % name, "kernel modified its input arrays", case)
+        rep.violation("metric:%s:exception" % cname, "kernel modified its input arrays", case)
     excs = [(t, v[1]) for t, v in vals.items() if v[0] == "exc"]
     if excs:
-        rep.violation("metric:%s:exception" % name, "raises %s on f(%s)" % (excs[0][1], excs[0][0]), case)
+        rep.violation("metric:%s:exception" % cname, "raises %s on f(%s)" % (excs[0][1], excs[0][0]), case)
         return False
     fxy, fyx, fxx, fyy = (vals[t][1] for t in ("xy", "yx", "xx", "yy"))
     ok = True
     if any(math.isnan(v) for v in (fxy, fyx, fxx, fyy)):
-        rep.violation("metric:%s:nan" % name, "NaN: f(x,y)=%r f(y,x)=%r f(x,x)=%r f(y,y)=%r" % (fxy, fyx, fxx, fyy), case)
+        rep.violation("metric:%s:nan" % cname, "NaN: f(x,y)=%r f(y,x)=%r f(x,x)=%r f(y,y)=%r" % (fxy, fyx, fxx, fyy), case)
         return False
     scale = R.abs_scale(name, x, y, kw)
     res.count("checked:nan"); res.count("checked:asym")
     if not R.close(fxy, fyx, name, scale):
-        rep.violation("metric:%s:asym" % name, "f(x,y)=%r but f(y,x)=%r" % (fxy, fyx), case); ok = False
+        rep.violation("metric:%s:asym" % cname, "f(x,y)=%r but f(y,x)=%r" % (fxy, fyx), case); ok = False
     undefined = (zx or zy) and s["zero"] == "undefined"
     if s["identity"]:
         for tag, v, z, vec in (("x", fxx, zx, x), ("y", fyy, zy, y)):
@@ -325,7 +335,7 @@ def check_pair(rep, name, kind, x, y, kw):
                 continue
             res.count("checked:identity")
             if not R.close(v, s["self_value"], name, R.abs_scale(name, vec, vec, kw)):
-                rep.violation("metric:%s:identity" % name,
+                rep.violation("metric:%s:identity" % cname,
                               "f(%s,%s)=%r, expected %r" % (tag, tag, v, s["self_value"]), case); ok = False
                 break
     if not undefined:
@@ -336,7 +346,7 @@ def check_pair(rep, name, kind, x, y, kw):
             res.count("checked:value")
             band = s["band"](x, y, kw, scale) if s["band"] is not None else None
             if not R.close(fxy, r, name, scale, band):
-                key = "metric:%s:value" % name
+                key = "metric:%s:value" % cname
                 if s["orientation"] == "similarity" and fxy == F32MAX:
                     key += ":sentinel"
                 rep.violation(key, "f(x,y)=%r, reference %r (tolerance scale %.3g)" % (fxy, r, scale), case)
